@@ -133,6 +133,8 @@ def nest_cases(tier):
         for k, v in fam.items():
             if k in ("bracket", "map", "range") and n > CONTAINER_NEST_CAP:
                 continue
+            if k == "ternary-tail" and n > 600:      # `a ? b : a ? b : ...` is folded iteratively: a CHAIN (tree depth n), see FINDING_CHAIN
+                continue
             if len(v) > MAX_INPUT:
                 continue
             out.append(("nest-%s-%d" % (k, n), v.encode("latin-1")))
@@ -262,6 +264,14 @@ def par_lines(binp, lines, chunk, timeout=3000):
     return out, err
 
 
+def par_model(mbin, lines):
+    """lines come longest first: the first few hundred run one per process, the rest in chunks"""
+    head, tail = lines[:300], lines[300:]
+    o1, e1 = par_lines(mbin, head, 1)
+    o2, e2 = par_lines(mbin, tail, 80)
+    return o1 + o2, e1 + e2
+
+
 def ulps(bits, a, b):
     w = int(bits)
     ka, kb = int(a, 16), int(b, 16)
@@ -375,11 +385,12 @@ ASAN_ENV = {"ASAN_OPTIONS": "detect_leaks=0:abort_on_error=0:allocator_may_retur
 
 def run(c, cases, hbin, mbin, sbin, with_prelude):
     lines = ["raw %s %s" % (hx(b), hx(FNAME)) for _, b, _ in cases]
-    small = [i for i, (k, b, _) in enumerate(cases) if len(b) <= MAX_MODEL_BYTES or k.startswith("nest-")]
+    small = [i for i, (k, b, fk) in enumerate(cases) if fk is None and (len(b) <= MAX_MODEL_BYTES or (k.startswith("nest-") and len(b) <= 6000))]
+    small.sort(key=lambda i: -len(cases[i][1]))       # longest first: the model's cost is quadratic in the input length
     with ThreadPoolExecutor(max_workers=3) as ex:
         fi = ex.submit(lambda: parh(hbin, lines))
         fs = ex.submit(lambda: par_lines(sbin, ["trivia " + (hx(b) if len(b) <= 4 * MAX_INPUT else "zz") for _, b, _ in cases], 1000))
-        fm = ex.submit(lambda: par_lines(mbin, [lines[i] for i in small], 60)) if mbin else None
+        fm = ex.submit(lambda: par_model(mbin, [lines[i] for i in small])) if mbin else None
         fp = None
         impl, erri = fi.result()
         specs, errs = fs.result()
